@@ -211,7 +211,8 @@ def c_res(r):
 class BackendRun:
     """ops: ["circ", cid] | ["param", name, value] (change a variable parameter, then set_circuit again with the
     same circuit object, as tests/test_backends.py::test_slos_refresh_coefs does) | ["in", state] |
-    ["mask", [strs], n|None] | ["clear"] | ["cutoff", k] | ["q", kind, arg?]"""
+    ["mask", [strs], n|None, "same"?] ("same": one list object of the caller updated in place and passed again) |
+    ["clear"] | ["cutoff", k] | ["q", kind, arg?]"""
 
     def __init__(self, h):
         self.h = h
@@ -224,6 +225,7 @@ class BackendRun:
         self.cfg = {"circ": None, "input": None, "mask": None, "cutoff": None}
         self.uid = 0
         self.sids = {}
+        self.mask_obj = []          # one long-lived list, updated in place and passed again (flavour "same")
 
     # model encoding of the last op
     def model_op(self, op):
@@ -293,9 +295,13 @@ class BackendRun:
                 self.cfg["input"] = op[1]
             return r
         if k == "mask":
-            r = obs(lambda: b.set_mask(list(op[1]), op[2]) and None)
+            if len(op) > 3 and op[3] == "same":
+                self.mask_obj[:] = list(op[1])      # the caller's own list, updated in place, given again
+                r = obs(lambda: b.set_mask(self.mask_obj, op[2]) and None)
+            else:
+                r = obs(lambda: b.set_mask(list(op[1]), op[2]) and None)
             if "v" in r:
-                self.cfg["mask"] = [op[1], op[2]]
+                self.cfg["mask"] = [list(op[1]), op[2]]
             return r
         if k == "clear":
             r = obs(lambda: b.clear_mask() and None)
@@ -491,7 +497,7 @@ def gen_backend(rng, variant, nops, mmax):
             if inp is not None and sum(inp) == 0:
                 continue
             strs, n = rand_mask(m)
-            ops.append(["mask", strs, n])
+            ops.append(["mask", strs, n, "same"] if rng.random() < 0.5 else ["mask", strs, n])
             mlen = m
         elif r < 0.67:
             ops.append(["clear"])
@@ -558,7 +564,8 @@ def detectors(kind, m):
 
 
 class SimulatorRun:
-    """ops: ["circ", cid] | ["param", name, value] (+ set_circuit) | ["heralds", {mode: v}] | ["clear_heralds"] |
+    """ops: ["circ", cid] | ["param", name, value] (+ set_circuit) | ["heralds", {mode: v}, "same"?] ("same": one dict
+    object of the caller updated in place and passed again) | ["clear_heralds"] |
     ["ps", expr] | ["clear_ps"] | ["filter", k] | ["precision", x] | ["keep", b] |
     ["q", "probs_svd", svd, det] | ["q", "probs", state] | ["q", "evolve", sv] | ["q", "evolve_svd", svd] |
     ["q", "probability", in, out] | ["q", "amp", in, out]"""
@@ -575,6 +582,7 @@ class SimulatorRun:
         self.hid = 0
         self.oid = 0
         self.sids = {}
+        self.hobj = {}              # one long-lived dict, updated in place and passed again (flavour "same")
 
     def configure(self, s, cfg):
         p = pc().pcvl
@@ -632,6 +640,10 @@ class SimulatorRun:
             return obs(lambda: s.set_circuit(self.circ[cfg["circ"]][0]) and None)
         if k == "heralds":
             cfg["heralds"] = dict(op[1])
+            if len(op) > 2 and op[2] == "same":
+                self.hobj.clear()
+                self.hobj.update({int(a): b for a, b in op[1].items()})
+                return obs(lambda: s.set_selection(heralds=self.hobj) and None)
             return obs(lambda: s.set_selection(heralds={int(a): b for a, b in op[1].items()}) and None)
         if k == "clear_heralds":
             cfg["heralds"] = {}
@@ -764,6 +776,8 @@ def gen_simulator(rng, variant, nops):
          "ops": [["precision", 0], ["circ", "c0"]]}
     ops = h["ops"]
     modelled_only = rng.random() < 0.6
+    cur_h = {}
+    asked = []          # the queries so far: asking one of them again after a change is what shows a stale cache
     while len(ops) < nops:
         r = rng.random()
         if r < 0.08:
@@ -772,8 +786,17 @@ def gen_simulator(rng, variant, nops):
             ops.append(["param", rng.choice(list(params)), round(rng.uniform(0.4, 2.6), 3)])
         elif r < 0.25:
             hm = rng.sample(range(m), rng.choice([1, 1, 2]))
-            ops.append(["heralds", {str(k): rng.choice([0, 1, 1]) for k in sorted(hm)}])
+            new_h = {str(k): rng.choice([0, 1, 1]) for k in sorted(hm)}
+            if cur_h and sum(cur_h.values()) and rng.random() < 0.5:
+                # other heralds with the same number of heralded photons: moved to other modes / expectations swapped
+                alts = [x for x in herald_sets(m) if sum(x.values()) == sum(cur_h.values()) and x != cur_h]
+                new_h = rng.choice(alts)
+            cur_h = new_h
+            ops.append(["heralds", new_h, "same"] if rng.random() < 0.3 else ["heralds", new_h])
+            if asked and rng.random() < 0.6:
+                ops.append(json.loads(json.dumps(rng.choice(asked[-3:]))))
         elif r < 0.29:
+            cur_h = {}
             ops.append(["clear_heralds"])
         elif r < 0.34:
             ops.append(["ps", rng.choice(["[0] < 2", "[1] > 0", "[0,1] == 1", "[2] < 1"])])
@@ -805,7 +828,23 @@ def gen_simulator(rng, variant, nops):
                             rng.choice(["|1,1,0>", "|0,1,1>", "|0,2,0>"])])
             else:
                 ops.append(["q", "evolve_svd", [[0.5, rng.choice(SV_POOL)], [0.5, rng.choice(SV_POOL[:5])]]])
+            if asked and rng.random() < 0.3:
+                ops[-1] = json.loads(json.dumps(rng.choice(asked)))     # the same question again
+            asked.append(ops[-1])
     return h
+
+
+def herald_sets(m):
+    """every heralds dict on one or two of the m modes with values 0 / 1"""
+    out = []
+    for k in range(m):
+        for v in (0, 1):
+            out.append({str(k): v})
+    for a, b in itertools.combinations(range(m), 2):
+        for va in (0, 1):
+            for vb in (0, 1):
+                out.append({str(a): va, str(b): vb})
+    return out
 
 
 # ------------------------------------------------------------------------------------------------
@@ -826,6 +865,7 @@ class StepperRun:
         self.cuid = 0
         self.pv = 0
         self.sids = {}
+        self.hobj = {}
 
     def query(self, s, op):
         BS = pc().pcvl.BasicState
@@ -856,6 +896,10 @@ class StepperRun:
             return obs(lambda: s.set_min_detected_photons_filter(op[1]) and None)
         if k == "heralds":
             cfg["heralds"] = dict(op[1])
+            if len(op) > 2 and op[2] == "same":
+                self.hobj.clear()
+                self.hobj.update({int(a): b for a, b in op[1].items()})
+                return obs(lambda: s.set_selection(heralds=self.hobj) and None)
             return obs(lambda: s.set_selection(heralds={int(a): b for a, b in op[1].items()}) and None)
         if k == "q":
             return self.query(s, op)
@@ -929,8 +973,10 @@ def gen_stepper(rng, variant, nops):
             ops.append(["param", rng.choice(list(params)), rng.choice(NICE)])
         elif r < 0.40:
             ops.append(["filter", rng.choice([0, 0, 1, 2, 3])])
-        elif r < 0.45:
+        elif r < 0.52:
             ops.append(["heralds", {str(rng.randrange(m)): 1} if rng.random() < 0.6 else {}])
+            if rng.random() < 0.5:
+                ops[-1].append("same")
         else:
             q = rng.random()
             if q < 0.6:
@@ -976,6 +1022,8 @@ def noise_of(spec):
     return p.NoiseModel(**spec)
 
 
+NOISE_FIELDS = ["brightness", "indistinguishability", "g2", "g2_distinguishable", "transmittance",
+                "phase_imprecision", "phase_error"]
 NOISES = [None, {"brightness": 0.8}, {"indistinguishability": 0.7}, {"g2": 0.05, "brightness": 0.9},
           {"transmittance": 0.6, "indistinguishability": 0.85}, {"phase_imprecision": 0.3},
           {"brightness": 0.7, "g2": 0.03, "indistinguishability": 0.9}]
@@ -983,7 +1031,8 @@ NOISES = [None, {"brightness": 0.8}, {"indistinguishability": 0.7}, {"g2": 0.05,
 
 class ProcessorRun:
     """init: {"m": circuit size, "heralds": {mode: v}}; ops: ["add", mode, compspec] | ["with_input", state] |
-    ["noise", spec|None] | ["filter", k] | ["ps", expr] | ["clear_ps"] | ["param", name, value] |
+    ["noise", spec|None, "same"?] ("same": one NoiseModel object of the caller updated in place with set_value and
+    assigned again) | ["filter", k] | ["ps", expr] | ["clear_ps"] | ["param", name, value] |
     ["det", mode, kind] | ["set_circuit", [[mode, compspec]…]] | ["q", "probs", precision|None]"""
 
     def __init__(self, h):
@@ -1001,6 +1050,7 @@ class ProcessorRun:
         self.sel_id = 0
         self.noise_id = 0
         self.input_id = 0
+        self.nm = None              # one long-lived NoiseModel, updated in place and assigned again (flavour "same")
 
     def construct(self, cfg, P, first=False):
         p = pc().pcvl
@@ -1059,6 +1109,18 @@ class ProcessorRun:
             return r
         if k == "noise":
             cfg["noise"] = op[1]
+            if len(op) > 2 and op[2] == "same" and op[1] is not None:
+                def g2():
+                    if self.nm is None:
+                        self.nm = p.NoiseModel()
+                    nm = self.nm
+                    for key in NOISE_FIELDS:                   # public API only: NoiseModel[...].set / set_value
+                        if key not in op[1]:
+                            nm[key].set(nm[key].default)
+                    for key, value in op[1].items():
+                        nm.set_value(key, value)
+                    proc.noise = nm
+                return obs(g2)
             def g():
                 proc.noise = noise_of(op[1])
             return obs(g)
@@ -1196,6 +1258,8 @@ def gen_processor(rng, variant, nops):
             ops.append(["with_input", rand_input()])
         elif r < 0.34:
             ops.append(["noise", rng.choice(NOISES)])
+            if rng.random() < 0.5:
+                ops[-1].append("same")      # the caller's own NoiseModel updated in place and assigned again
         elif r < 0.44:
             ops.append(["filter", rng.choice([0, 1, 1, 2])])
         elif r < 0.49:
@@ -1281,6 +1345,13 @@ def fail_sig(h, f):
         return "mps-cutoff-history"
     if fam == "stepper" and "e" not in real and ("filter" in ks or "heralds" in ks):
         return "stepper-filter-stale"
+    prev_q = max([j for j in range(i) if h["ops"][j][0] == "q"], default=None)
+    since = [o[0] for o in h["ops"][(prev_q + 1 if prev_q is not None else 0):i]]
+    if fam == "simulator" and prev_q is not None and ("heralds" in since or "clear_heralds" in since) \
+            and not any(x in since for x in ("circ", "param")):
+        return "simulator-stale-after-heralds-change"
+    if fam == "processor" and "noise" in since and "filter" in ks and "e" not in real:
+        return "processor-stale-after-noise-change"
     if fam == "simulator" and op[1] == "probs_svd" and any(o[0] == "q" and o[1] in ("probs_svd", "evolve", "evolve_svd")
                                                           for o in h["ops"][:i]):
         return "simulator-mask-mode-cache"
@@ -1291,7 +1362,7 @@ def fail_sig(h, f):
                                                        for o in h["ops"][:i]):
         return "simulator-evolve-inherits-mask-mode"
     if fam == "processor" and "filter" not in ks:
-        return "processor-auto-filter-persists"
+        return "processor-auto-filter-persists"     # no explicit photon filter so far: the automatic one is in play
     if fam == "processor" and "e" in real and "set_circuit" in ks:
         return "processor-set-circuit-keeps-nonunitary-flags"
     if fam == "processor" and op[2] is None and any(o[0] == "q" and o[2] is not None for o in h["ops"][:i]):
@@ -1305,11 +1376,26 @@ def fail_sig(h, f):
     return f"{h['family']}:{h['variant']}:{what}:" + ">".join(kinds)
 
 
+def auto_filter_in_play(ops):
+    """a Processor query was answered before any explicit photon filter was given: the automatic value of that
+    query is stored (the open known finding `processor-auto-filter-persists`)"""
+    for o in ops:
+        if o[0] == "filter":
+            return False
+        if o[0] == "q":
+            return True
+    return False
+
+
 def shrink_history(h):
+    keep_filter = h["family"] == "processor" and not auto_filter_in_play(h["ops"])
+
     def still(ops):
         hh = dict(h, ops=ops)
         if h["family"] == "backend" and not legal_backend(hh):
             return False
+        if keep_filter and auto_filter_in_play(ops):
+            return False        # do not shrink a history into the shape of the known automatic-filter finding
         try:
             return bool(run_history(hh)["fails"])
         except Exception:
@@ -1336,10 +1422,10 @@ SOFT_KEYS = {"backend": ["iter", "masks", "mask_n", "has_mask", "inputs", "npath
 
 
 def compare_model(chk, h, res, reply):
-    """-> list of (what) disagreements"""
+    """-> list of (tag, what) disagreements; the tag names the kind of disagreement (part of the signature)"""
     out = []
     if "err" in reply:
-        return [f"driver rejected the history: {reply['err']}"]
+        return [("driver-rejected", f"driver rejected the history: {reply['err']}")]
     outs, abss = reply["outs"], reply["abs"]
     for t, mo, ma in zip(res["trace"], outs, abss):
         if t.get("nocheck"):
@@ -1354,22 +1440,25 @@ def compare_model(chk, h, res, reply):
         else:
             mst = "ok"
         rst = "exc" if st.startswith("exc:") else st
+        opk = h["ops"][t["i"]][0]
         if mst == "stale":
-            out.append(f"step {t['i']}: the fixed model combines stale entries (theorem query_eq_fresh contradicted)")
+            out.append(("model-stale", f"step {t['i']}: the fixed model combines stale entries (theorem query_eq_fresh "
+                                       f"contradicted)"))
             break
         if mst != rst:
-            out.append(f"step {t['i']} {json.dumps(h['ops'][t['i']])}: code {st}, model {json.dumps(mo)}")
+            out.append((f"status-{opk}", f"step {t['i']} {json.dumps(h['ops'][t['i']])}: code {st}, model {json.dumps(mo)}"))
             break
         if mst == "exc" and mo not in ("exc:NoInput", "exc:NoCircuit", "exc:NotConfigured") and mo != st:
-            out.append(f"step {t['i']}: code {st}, model {mo}")
+            out.append((f"exception-{opk}", f"step {t['i']}: code {st}, model {mo}"))
             break
         chk.count("status", st if rst != "exc" else st)
         # soft tie
         for k in SOFT_KEYS[h["family"]]:
             if k in t["snap"] and k in ma:
                 if t["snap"][k] != ma[k]:
-                    out.append(f"step {t['i']} {json.dumps(h['ops'][t['i']])}: private state {k}: code "
-                               f"{json.dumps(t['snap'][k])}, model {json.dumps(ma[k])}")
+                    out.append((f"private-state-{k}-after-{opk}",
+                                f"step {t['i']} {json.dumps(h['ops'][t['i']])}: private state {k}: code "
+                                f"{json.dumps(t['snap'][k])}, model {json.dumps(ma[k])}"))
                     break
         if out:
             break
@@ -1474,6 +1563,114 @@ for _ops in ([["circ", "D"], ["in", [1, 1, 1, 0]], ["q", "dist"], ["in", [1, 1, 
                      "ops": _ops})
 
 
+# ------------------------------------------------------------------------------------------------
+# systematic stream: one configuration change between two queries
+# ------------------------------------------------------------------------------------------------
+# Every stale cache needs the same skeleton: a configuration step, a query that fills a cache, another
+# configuration step that ought to invalidate it, a query that would read it.  The random histories reach a given
+# (step, step, query) triple only by luck, so the triples are enumerated: all ordered pairs of an alphabet of
+# configuration steps (every kind of step the family has, several values per kind — among them values that agree
+# on a derived quantity such as the number of heralded photons — and the "same object updated in place and given
+# again" flavour) x all queries asked twice, plus a sample of pairs of different queries (caches are shared between
+# entry points).
+_SUP = [[0.6, 0, "|1,1,0>"], [0, 0.8, "|0,1,1>"]]
+PAIR_PARAMS = {"a0": 1.1, "a1": 0.8}
+PAIR_CIRCUITS = {"c0": {"m": 3, "comps": [["BS", 0, ["p", "a0"], 0.4], ["BS", 1, 0.7, 2.0], ["PS", 0, 0.3],
+                                          ["BS", 0, 1.9, 1.1]]},
+                 "c1": {"m": 3, "comps": [["BS", 1, 2.3, 1.4], ["PS", 1, 1.3], ["BS", 0, 0.9, 0.2],
+                                          ["BS", 1, ["p", "a1"], 0.5]]}}
+PAIR_HERALDS = [{"0": 1}, {"2": 1}, {"0": 1, "1": 0}, {"0": 0, "1": 1}, {"1": 1, "2": 1}, {"0": 0}]
+PAIR_SIM_STEPS = [["heralds", x] for x in PAIR_HERALDS] + [
+    ["clear_heralds"], ["circ", "c1"], ["circ", "c0"], ["param", "a0", 1.7], ["ps", "[1] > 0"], ["clear_ps"],
+    ["filter", 1], ["filter", 2], ["keep", False], ["precision", 1e-6]]
+PAIR_SIM_QUERIES = [
+    ["q", "evolve", [[1, 0, "|1,1,0>"]]],
+    ["q", "evolve", _SUP],
+    ["q", "probs_svd", [[1.0, _SUP]], "none"],
+    ["q", "probs_svd", [[1.0, _SUP]], "th"],
+    ["q", "probs_svd", [[0.25, [[1, 0, "|1,1,1>"]]], [0.75, _SUP]], "mix"],
+    ["q", "probs", "|1,1,0>"],
+    # asked twice in the thorough tier only; in the quick tier they take part in the sampled pairs of queries
+    ["q", "probs_svd", [[1.0, [[1, 0, "|1,1,0>"]]]], "none"],
+    ["q", "probs_svd", [[1.0, SV_POOL[8]]], "pnr"],
+    ["q", "evolve_svd", [[0.5, _SUP], [0.5, [[1, 0, "|2,0,0>"]]]]],
+    ["q", "probability", "|1,1,0>", "|0,1,1>"],
+]
+
+
+def _cp(x):
+    return json.loads(json.dumps(x))
+
+
+def _flavoured_pairs(plain, flavoured_kind):
+    """all ordered pairs of steps; the pairs of two steps of `flavoured_kind` also with the caller's object reused
+    for both (and for one of them only)"""
+    out = [(a, b) for a in plain for b in plain]
+    fl = [x for x in plain if x[0] == flavoured_kind and x[1] is not None]
+    for a in fl:
+        for b in fl:
+            out.append((a + ["same"], b + ["same"]))
+            out.append((a, b + ["same"]))
+    return out
+
+
+def pairwise_simulator(variant, rng, ncross, nq=None):
+    """the first `nq` queries asked twice around every pair of steps; `ncross` sampled (pair, two different queries)"""
+    hs = []
+    pairs = _flavoured_pairs(PAIR_SIM_STEPS, "heralds")
+    base = {"family": "simulator", "variant": variant, "m": 3, "params": PAIR_PARAMS, "circuits": PAIR_CIRCUITS}
+    for a, b in pairs:
+        for q in PAIR_SIM_QUERIES[:nq]:
+            hs.append(dict(base, ops=_cp([["precision", 0], ["circ", "c0"], a, q, b, q])))
+    for _ in range(ncross):
+        a, b = rng.choice(pairs)
+        q1, q2 = rng.sample(PAIR_SIM_QUERIES, 2)
+        hs.append(dict(base, ops=_cp([["precision", 0], ["circ", "c0"], a, q1, b, q2])))
+    return hs
+
+
+PAIR_STEP_CIRCUITS = {"c0": {"m": 3, "comps": [["BS", 0, ["p", "a0"], 0.5], ["BS", 1, 0.75, 2.0], ["PS", 0, 0.5]]},
+                      "c1": {"m": 3, "comps": [["BS", 1, 2.25, 1.5], ["PS", 1, 1.25], ["BS", 0, 1.0, 0.5]]}}
+PAIR_STEP_STEPS = [["circ", "c0"], ["circ", "c1"], ["param", "a0", 1.75], ["filter", 0], ["filter", 1], ["filter", 2],
+                   ["filter", 3], ["heralds", {"0": 1}], ["heralds", {"2": 1}], ["heralds", {}]]
+PAIR_STEP_QUERIES = [["q", "evolve", [[1, 0, "|1,1,0>"]]], ["q", "evolve", _SUP], ["q", "probs", "|1,1,0>"],
+                     ["q", "probs_svd", [[0.5, _SUP], [0.5, [[1, 0, "|2,0,0>"]]]], "th"]]
+
+
+def pairwise_stepper(variant):
+    hs = []
+    base = {"family": "stepper", "variant": variant, "m": 3, "params": {"a0": 1.25}, "circuits": PAIR_STEP_CIRCUITS}
+    for a, b in _flavoured_pairs(PAIR_STEP_STEPS, "heralds"):
+        for q in PAIR_STEP_QUERIES:
+            hs.append(dict(base, ops=_cp([["circ", "c0"], a, q, b, q])))
+    return hs
+
+
+PAIR_PROC_COMPS = [[0, ["BS", ["p", "a0"], 0.4]], [1, ["BS", 0.7, 2.0]], [0, ["PS", 0.3]]]
+
+
+def pairwise_processor(variant, with_herald, noise_only):
+    heralds = {"2": 1} if with_herald else {}
+    ins = [[1, 1], [1, 0], [0, 1]] if with_herald else [[1, 1, 0], [1, 0, 0], [0, 1, 1]]
+    steps = [["noise", x] for x in NOISES]
+    if not noise_only:
+        steps += [["with_input", x] for x in ins]
+        steps += [["filter", 0], ["filter", 1], ["filter", 2], ["ps", "[0] < 2"], ["clear_ps"], ["param", "a0", 1.9],
+                  ["add", 0, ["BS", 0.9, 0.1]], ["add", 1, ["PS", 0.5]], ["det", 0, "th"],
+                  ["set_circuit", [[0, ["BS", 1.234, 0.3]], [1, ["BS", 0.8, 0.2]]]]]
+        if variant != "MPS":
+            steps.append(["add", 0, ["LC", 0.3]])
+    base = {"family": "processor", "variant": variant, "params": PAIR_PARAMS,
+            "init": {"m": 3, "heralds": heralds, "comps": PAIR_PROC_COMPS}}
+    q = ["q", "probs", None]
+    return [dict(base, ops=_cp([["with_input", ins[0]], ["filter", 1], a, q, b, q]))
+            for a, b in _flavoured_pairs(steps, "noise")]
+
+
+def _chunks(hs, n):
+    return [hs[k::n] for k in range(n) if hs[k::n]]
+
+
 def run(chk: core.Check):
     chk.rule = ("distinct (family, engine, sequence of operation kinds) histories containing at least one "
                 "configuration change after a first query and a later query")
@@ -1490,7 +1687,13 @@ def run(chk: core.Check):
     chk.required_branches = ["query-after-reconfiguration", "same-size-circuit-swap", "other-size-circuit",
                              "mask-after-input", "photon-number-change-under-mask", "exception-output",
                              "processor-noise-change-after-probs", "simulator-detector-mode-change",
-                             "stepper-filter-change", "mps-cutoff-change", "exhaustive-short"]
+                             "stepper-filter-change", "mps-cutoff-change", "exhaustive-short",
+                             "pairwise-simulator", "pairwise-stepper", "pairwise-processor",
+                             "simulator-reherald-same-photon-count-requery",
+                             "same-object-updated-in-place-and-given-again:backend",
+                             "same-object-updated-in-place-and-given-again:simulator",
+                             "same-object-updated-in-place-and-given-again:stepper",
+                             "same-object-updated-in-place-and-given-again:processor"]
     seed_rng = chk.rng
     jobs = []
     # corpus first
@@ -1511,7 +1714,7 @@ def run(chk: core.Check):
                           4 if v == "MPS" else chk.pick(3, 4)) for _ in range(nrand)]
         for k in range(4):
             jobs.append((f"random:backend:{v}", hs[k::4]))
-    nsim = chk.pick(14, 110)
+    nsim = chk.pick(40, 160)
     for v in ["SLOS", "Naive", "SLAP"]:
         hs = [gen_simulator(random.Random(seed_rng.getrandbits(64)), v, random.Random(seed_rng.getrandbits(32)).randint(8, nops))
               for _ in range(nsim)]
@@ -1519,14 +1722,34 @@ def run(chk: core.Check):
             jobs.append((f"random:simulator:{v}", hs[k::2]))
     for v in ["SLOS", "Naive"]:
         hs = [gen_stepper(random.Random(seed_rng.getrandbits(64)), v, random.Random(seed_rng.getrandbits(32)).randint(6, min(nops, 30)))
-              for _ in range(chk.pick(12, 96))]
+              for _ in range(chk.pick(24, 96))]
         for k in range(6):
             jobs.append((f"random:stepper:{v}", hs[k::6]))
     for v in ["SLOS", "Naive", "MPS"]:
         hs = [gen_processor(random.Random(seed_rng.getrandbits(64)), v, random.Random(seed_rng.getrandbits(32)).randint(8, min(nops, 40)))
-              for _ in range(chk.pick(12, 90))]
+              for _ in range(chk.pick(30, 120))]
         for k in range(2):
             jobs.append((f"random:processor:{v}", hs[k::2]))
+
+    # the enumerated stream is complete for SLOS (cheapest engine) in both tiers and for every engine in the thorough
+    # tier; in the quick tier the engines whose amplitudes cost a native call each get one residue class of it
+    def part_of(hs, stride):
+        if chk.thorough or stride == 1:
+            return hs
+        return hs[seed_rng.randrange(stride)::stride]
+    for v, stride in (("SLOS", 1), ("Naive", 8), ("SLAP", 4)):
+        hs = part_of(pairwise_simulator(v, random.Random(seed_rng.getrandbits(64)), chk.pick(300, 4000),
+                                        chk.pick(6, None)), stride)
+        for part in _chunks(hs, chk.pick(6, 12)):
+            jobs.append((f"pairwise:simulator:{v}", part))
+    for v, stride in (("SLOS", 1), ("Naive", 3)):
+        for part in _chunks(part_of(pairwise_stepper(v), stride), 6):
+            jobs.append((f"pairwise:stepper:{v}", part))
+    for v, stride in (("SLOS", 1), ("Naive", 3), ("MPS", 2)):
+        hs = pairwise_processor(v, False, False) + pairwise_processor(v, True, chk.pick(True, False))
+        for part in _chunks(part_of(hs, stride), 6):
+            jobs.append((f"pairwise:processor:{v}", part))
+    jobs.sort(key=lambda j: (j[0] not in ("corpus", "directed"), -len(j[1])))         # largest jobs first
 
     ctx = mp.get_context("fork")
     with ctx.Pool(min(14, os.cpu_count() or 4)) as pool:
@@ -1570,10 +1793,10 @@ def run(chk: core.Check):
             continue
         diffs = compare_model(chk, h, item, reply)
         if diffs:
-            sig = "model:" + h["family"] + ":" + h["variant"] + ":" + diffs[0].split(":")[1][:40].strip()
+            sig = "model:" + h["family"] + ":" + h["variant"] + ":" + diffs[0][0]
             if sig not in reported:
                 reported.add(sig)
-                chk.fail("broken", sig, "model and code disagree, the fresh-object oracle does not fail: " + diffs[0],
+                chk.fail("broken", sig, "model and code disagree, the fresh-object oracle does not fail: " + diffs[0][1],
                          {"history": h, "source": label})
     if n_exh:
         chk.branch("exhaustive-short", n_exh)
@@ -1629,6 +1852,24 @@ def account(chk, label, h, item):
                 masked = False
             elif o[0] == "cutoff" and inp is not None:
                 chk.branch("mps-cutoff-change")
+    if label.startswith("pairwise"):
+        chk.branch("pairwise-" + fam)
+    # the caller's own mutable argument (mask list / heralds dict / NoiseModel) updated in place and given again,
+    # with a query before and a query after the second hand-over
+    flav = {"backend": "mask", "simulator": "heralds", "stepper": "heralds", "processor": "noise"}[fam]
+    given, q_since, pending = 0, False, False
+    rnd = label.startswith("random")        # the enumerated stream has these shapes by construction
+    for o in ops if rnd else []:
+        if o[0] == "q":
+            q_since = True
+            if pending:
+                chk.branch("same-object-updated-in-place-and-given-again:" + fam)
+                pending = False
+        elif o[0] == flav and o[-1] == "same":
+            if given and q_since:
+                pending = True
+            given += 1
+            q_since = False
     if fam == "processor":
         q = False
         for o in ops:
@@ -1644,6 +1885,24 @@ def account(chk, label, h, item):
                 if last is not None and last != mode:
                     chk.branch("simulator-detector-mode-change")
                 last = mode
+        # the same question through the evolved-state cache before and after a change of heralds that keeps the
+        # number of heralded photons (other modes / swapped expectations), the circuit untouched in between
+        seen = {}
+        epoch, cur = 0, {}
+        for o in ops:
+            if o[0] in ("circ", "param"):
+                epoch += 1
+            elif o[0] == "heralds":
+                cur = dict(o[1])
+            elif o[0] == "clear_heralds":
+                cur = {}
+            elif o[0] == "q" and o[1] in ("evolve", "evolve_svd", "probs_svd"):
+                key = json.dumps(o)
+                if key in seen:
+                    e0, h0 = seen[key]
+                    if rnd and e0 == epoch and h0 != cur and sum(h0.values()) == sum(cur.values()) > 0:
+                        chk.branch("simulator-reherald-same-photon-count-requery")
+                seen[key] = (epoch, cur)
     if fam == "stepper":
         q = False
         for o in ops:
@@ -1678,4 +1937,4 @@ def replay(chk: core.Check, data):
         return
     diffs = compare_model(chk, h, res, reply)
     if diffs:
-        chk.fail("broken", "model:" + h["family"], diffs[0], {"history": h})
+        chk.fail("broken", "model:" + h["family"] + ":" + diffs[0][0], diffs[0][1], {"history": h})
